@@ -7,9 +7,12 @@ protocol messages, parking while the tree is unknown, the tree request, the tree
 and the flushes of the parked messages.  One thread step per region between two hook points of
 `overlay.go` (the hooks are placed exactly at these boundaries, outside every lock):
 
-* `lookup`  — `TransmitMsg`: `treeStorage.getAndRefresh` (overlay.go:140); present ⇒ the
+* `lookup`  — `TransmitMsg`: `treeStorage.getAndRefresh` (overlay.go:143); present ⇒ the
               `transmitMux` region: look the instance up by the token id of the message, create it
-              if absent, hand the message over (`pi.ProcessProtocolMsg`) — collapsed to `deliver`
+              if absent, hand the message over (`pi.ProcessProtocolMsg`) — collapsed to `deliver`.
+              The creation path (overlay.go:176-189, /repo fafcac0) stores the tree again
+              (`treeStorage.Set`) and, when `hasPendingMsg` finds a message of this tree parked,
+              calls `checkPendingMessages`, which spawns one more flush goroutine
 * `park`    — `requestTree`: `savePendingMsg` (under `pendingMsgLock`)
 * `recheck` — the re-check added by the repair: `treeStorage.Get` present ⇒ `checkPendingMessages`
 * `chk`     — `treeStorage.IsRegistered`: registered (requested or present) ⇒ nothing more to do
@@ -44,7 +47,7 @@ structure St where
   thr : List Th := []
   flushes : Nat := 0            -- flush goroutines spawned and not yet run
   reqs : Nat := 0               -- tree requests sent and not yet answered
-  inst : Bool := false          -- some instance of this tree is listed (created by a hand-over)
+  insts : List Nat := []        -- the tokens of this tree whose instance is listed (created by a hand-over)
   deriving Repr
 
 inductive Act where
@@ -60,6 +63,14 @@ inductive Act where
 answers them with an error ("No TreeNode defined in this tree here") and they are gone -/
 def bad (m : Nat) : Bool := 1000 ≤ m
 
+/-- the token a message is addressed to: the harness runs two rounds per tree and sends message `m`
+to the instance of round `m % 2` (any function would do — the theorems do not depend on it) -/
+def tok (m : Nat) : Nat := m % 2
+
+/-- the creation path of `TransmitMsg` spawns a flush: the instance the message names is not listed
+yet and some message of the tree is parked (`hasPendingMsg`) -/
+def createFlush (s : St) (m : Nat) : Bool := !s.insts.contains (tok m) && !s.parked.isEmpty
+
 def stepTh (s : St) (i : Nat) (t : Th) : St :=
   match t.pc with
   | .lookup =>
@@ -67,7 +78,10 @@ def stepTh (s : St) (i : Nat) (t : Th) : St :=
         if bad t.m then
           { s with refused := s.refused ++ [t.m], thr := s.thr.set i { t with pc := .done } }
         else
-        { s with delivered := s.delivered ++ [t.m], inst := true, thr := s.thr.set i { t with pc := .done } }
+        { s with delivered := s.delivered ++ [t.m],
+                 insts := (if s.insts.contains (tok t.m) then s.insts else s.insts ++ [tok t.m]),
+                 flushes := (if createFlush s t.m then s.flushes + 1 else s.flushes),
+                 thr := s.thr.set i { t with pc := .done } }
       else { s with thr := s.thr.set i { t with pc := .park } }
   | .park => { s with parked := s.parked ++ [t.m], thr := s.thr.set i { t with pc := .recheck } }
   | .recheck =>
@@ -103,8 +117,8 @@ def step (s : St) : Act → Option St
   -- its instances have finished and
   -- nothing of this tree is parked, in flight or waiting to be flushed)
   | .expire =>
-      if s.tree = .present ∧ s.inst = true ∧ s.parked = [] ∧ s.flushes = 0 ∧ (∀ t ∈ s.thr, t.pc = .done) then
-        some { s with tree := .absent, inst := false }
+      if s.tree = .present ∧ s.insts ≠ [] ∧ s.parked = [] ∧ s.flushes = 0 ∧ (∀ t ∈ s.thr, t.pc = .done) then
+        some { s with tree := .absent, insts := [] }
       else none
 
 /-- a schedule: disabled actions are skipped -/
